@@ -1,5 +1,6 @@
 """C19 — Penalty decorators leave feasible fitness intact and never reward infeasibility
 (deap/tools/constraint.py)."""
+import copy
 import itertools
 from fractions import Fraction as Fr
 
@@ -11,9 +12,11 @@ ANCHORS = [("deap/tools/constraint.py", ["DeltaPenalty", "ClosestValidPenalty"])
 LEVEL = "proof"
 RULE = ("exhaustive: every weight-sign pattern in {+,-,0}^n for n=1..4 (random magnitudes) x {DeltaPenalty, "
         "ClosestValidPenalty} x scalar/per-objective delta x absent/scalar/vector distance, infeasible and feasible, "
-        "random dyadic values; sequences: 2-4 calls through ONE decorator instance with individuals of different fitness "
-        "classes (sign pattern, number of objectives), feasible/infeasible mixed, different extras, every call compared "
-        "with the stateless model and checked by the oracle; random: n<=6, extra positional/keyword arguments, closest point identical to the "
+        "random dyadic values; sequences: 2-5 calls through ONE decorator object decorating 1-3 different functions "
+        "(wrappers called in any and in every order), individuals of different fitness classes (sign pattern, number of "
+        "objectives), feasible/infeasible mixed, different extras, individuals carrying a stale stored fitness, closest "
+        "points made as repaired deepcopy clones carrying a fitness, re-evaluation of the same individual with other extras "
+        "after storing its result; every call compared with the stateless model and checked by the oracle; random: n<=6, extra positional/keyword arguments, closest point identical to the "
         "individual, mis-sized vectors (zip truncation / IndexError guard; model comparison only). "
         "Non-trivial = distinct infeasible case, or feasible case with a distance function or extras")
 EXHAUSTIVE = {"quick": False, "thorough": False}
@@ -33,7 +36,9 @@ EXPLANATION = ("Theorems C19.* are proved for every linearly ordered ring, every
                "The model decorator is a pure function of its arguments (feasibility, constants, distance, weights of THIS "
                "individual, evaluation function, extras) — theorem C19.decorators_stateless — so every call of a call "
                "sequence through one decorator instance is compared with the model on its own: any dependence of the "
-               "implementation on earlier calls (cached weights, exhausted iterators) is a disagreement and an oracle failure.")
+               "implementation on earlier calls (cached weights, exhausted iterators), on other functions decorated by the "
+               "same decorator object (C19.wrappers_independent) or on fitness values stored on the individual or on the "
+               "closest point (the model has no such input) is a disagreement and an oracle failure.")
 
 
 def sfr(q):
@@ -120,15 +125,25 @@ def worse_ok(w, pen, base_v, move):
 class Call(object):
     """one call of the decorated function: its individual, closest point, tables and extras"""
 
-    def __init__(self, d, kind):
+    def __init__(self, d, kind, earlier=()):
         self.d = d
+        reuse = d.get("reuse")
+        if reuse is not None and 0 <= reuse < len(earlier):
+            # the SAME individual is evaluated again (with this call's own extras): weights and tables stay
+            src = earlier[reuse].d
+            d = dict(d, w=src["w"], f0=src["f0"], fc=src.get("fc", src["f0"]), cid=src.get("cid", 1),
+                     ints=src.get("ints"))
+            self.d = d
         self.ws = [Fr(x) for x in d["w"]]
         self.n = len(self.ws)
         self.ints = bool(d.get("ints"))
         self.seqtype = list if d.get("lists") else tuple
         wpy = tuple(int(w) if self.ints and w.denominator == 1 else num(w) for w in self.ws)
-        self.x = Ind([1, 2, 3])
-        self.x.fitness = fit_class(wpy)()
+        if reuse is not None and 0 <= reuse < len(earlier):
+            self.x = earlier[reuse].x
+        else:
+            self.x = Ind([1, 2, 3])
+            self.x.fitness = fit_class(wpy)()
         cid = d.get("cid", 1)
         self.c = self.x if (kind == "closest" and cid == 0) else Ind([0, 0, 0])
         self.f0 = [Fr(v) for v in d["f0"]]
@@ -145,6 +160,14 @@ class Call(object):
         self.dist = d.get("dist")
         self.inc = [Fr(v) for v in d.get("inc", ["1"])]
         self.round = 0
+        self.fi = d.get("fi", 0)                 # which of the decorated functions is called
+        self.xfit = d.get("xfit")                # a (stale) fitness stored on the individual before the call
+        self.cfit = d.get("cfit")                # a (stale) fitness stored on the closest point
+        self.store = bool(d.get("store"))        # the result is stored as the individual's fitness afterwards
+        # how the closest-point function makes its result: plain (an object without fitness), clone (deepcopy of
+        # the individual, carrying whatever fitness it has), cstale (clone with its own stored fitness), fresh
+        # (clone with the fitness deleted)
+        self.cmode = "self" if self.c is self.x else d.get("cmode", "plain")
 
     def cur_dist(self):
         return self.dist if self.round == 0 else sv_add(self.dist, self.inc)
@@ -162,7 +185,12 @@ def evaluate(d):
     has_dist = d["has_dist"] if "has_dist" in d else (call_descs[0].get("dist") is not None)
     dints = bool(d.get("ints"))
     dseq = list if d.get("lists") else tuple
-    cs = [Call(cd, k) for cd in call_descs]
+    cs = []
+    for cd in call_descs:
+        cs.append(Call(cd, k, cs))
+    nf = max(1, int(d.get("nfuncs", 1)))
+    foff = [Fr(v) for v in d.get("foff", [])] + [Fr(0)] * nf
+    keep = []
     owner = {}                  # id(object) -> Call whose individual / closest point it is
     table = {}
     for c in cs:
@@ -174,20 +202,39 @@ def evaluate(d):
     state = {"cur": None}
     calls, feas_calls = [], []
 
-    def func(individual, shift=0, *a, **kw):
-        calls.append((individual, shift, a, kw))
-        cur = state["cur"]
-        return cur.seqtype(num(v + Fr(shift)) for v in table[id(individual)])
+    def make_func(j):
+        def func(individual, shift=0, *a, **kw):
+            calls.append((individual, shift, a, kw, j))
+            cur = state["cur"]
+            return cur.seqtype(num(v + Fr(shift) + foff[j]) for v in table[id(individual)])
+        func.__name__ = "func%d" % j
+        return func
 
     def feasibility(individual):
         feas_calls.append(individual)
-        return owner[id(individual)].feas if id(individual) in owner else state["cur"].feas
+        return state["cur"].feas
+
+    def set_fit(obj, vals):
+        if vals is not None and len(vals) == len(obj.fitness.weights):
+            obj.fitness.values = tuple(num(Fr(v)) for v in vals)
 
     def closest(individual):
-        return owner[id(individual)].c
+        cur = state["cur"]
+        if cur.cmode in ("self", "plain"):
+            return cur.c
+        c = copy.deepcopy(individual)           # the idiomatic way: clone the individual, repair the clone
+        c[:] = [0, 0, 0]
+        if cur.cmode == "cstale":
+            set_fit(c, cur.cfit)
+        elif cur.cmode == "fresh":
+            del c.fitness.values
+        keep.append(c)
+        table[id(c)] = cur.fc
+        cur.c = c
+        return c
 
     def distance1(individual):
-        c = owner.get(id(individual), state["cur"])
+        c = state["cur"]
         return sv_py(c.cur_dist(), c.ints, c.seqtype)
 
     def distance2(f_ind, individual):
@@ -205,7 +252,7 @@ def evaluate(d):
         alpha = Fr(d["alpha"])
         deco = cls(feasibility, closest, int(alpha) if dints and alpha.denominator == 1 else num(alpha),
                    *([distance2] if has_dist else []))
-    wrapped = deco(func)
+    wrappeds = [deco(make_func(j)) for j in range(nf)]     # ONE decorator object decorates every function
 
     def call(c):
         del calls[:]
@@ -215,7 +262,7 @@ def evaluate(d):
         if c.shift_mode == "kw":
             kw["shift"] = num(c.shift)
         try:
-            return wrapped(c.x, *pos, **kw), None
+            return wrappeds[c.fi % nf](c.x, *pos, **kw), None
         except IndexError as e:
             return None, e
 
@@ -230,34 +277,38 @@ def evaluate(d):
             c.dist = {"s": "0"}
         ws, n, x, feas, shift, args, kwargs = c.ws, c.n, c.x, c.feas, c.shift, c.args, c.kwargs
         dist_desc = c.dist
+        fi = c.fi % nf
+        off = foff[fi]
+        set_fit(x, c.xfit)
         res, exc = call(c)
         calls1 = list(calls)
         ident = lambda o: 0 if o is x else (1 if o is c.c else 9)
-        call_tok = ",".join("%d:%s:%s" % (ident(i), sfr(Fr(s_)), tag_of(a, kw)) for (i, s_, a, kw) in calls1) or "-"
+        call_tok = ",".join("%d:%s:%s%s" % (ident(i), sfr(Fr(s_)), tag_of(a, kw), "" if j == fi else "!func%d" % j)
+                            for (i, s_, a, kw, j) in calls1) or "-"
         res_tok = "raise" if exc is not None else slist(Fr(v) for v in res)
         tag_sent = tag_of(args, kwargs)
         if k == "delta":
             line = "C19 delta %d %s %s %s %s %s %s" % (feas, slist(ws), sv_tok(d["delta"]), sv_tok(dist_desc),
-                                                        slist(c.f0), sfr(shift), tag_sent)
+                                                        slist(v + off for v in c.f0), sfr(shift), tag_sent)
         else:
             line = "C19 closest %d %s %s %s %d %s %s %s %s" % (
                 feas, slist(ws), sfr(Fr(d["alpha"])), sv_tok(dist_desc), 0 if c.c is x else 1,
-                slist(c.f0), slist(c.fc), sfr(shift), tag_sent)
+                slist(v + off for v in c.f0), slist(v + off for v in c.fc), sfr(shift), tag_sent)
         lines.append(line)
         expects.append("%s | %s" % (res_tok, call_tok))
 
         # ---------------- oracle: the statement itself, on the implementation's outputs ----------------
         orc = None
-        extras_ok = lambda cl: (Fr(cl[1]) == shift and list(cl[2]) == args and cl[3] == kwargs)
+        extras_ok = lambda cl: (Fr(cl[1]) == shift and list(cl[2]) == args and cl[3] == kwargs and cl[4] == fi)
         premise = True
         if feas:
-            plain = c.seqtype(num(v + shift) for v in c.f0)      # what the undecorated function returns
+            plain = c.seqtype(num(v + shift + off) for v in c.f0)      # what THIS undecorated function returns
             if exc is not None:
                 orc = "feasible individual: decorated function raised %r" % (exc,)
             elif res != plain or type(res) is not type(plain):
                 orc = "feasible individual: decorated function returned %r, undecorated returns %r" % (res, plain)
             elif len(calls1) != 1 or calls1[0][0] is not x or not extras_ok(calls1[0]):
-                orc = "feasible individual: evaluation function was not called exactly once on the individual with the extras"
+                orc = "feasible individual: the wrapper's own evaluation function was not called exactly once on the individual with the extras; calls=%s" % call_tok
         elif k == "delta":
             premise = well_sized(d["delta"], n) and well_sized(dist_desc, n)
             if premise:
@@ -277,12 +328,12 @@ def evaluate(d):
                             break
         else:
             premise = well_sized(dist_desc, n)
-            fc_shifted = [v + shift for v in c.fc]
+            fc_shifted = [v + shift + off for v in c.fc]
             if len(fc_shifted) != n:
                 premise = False          # size guard of the code; model comparison only
             if premise:
                 if len(calls1) != 1 or calls1[0][0] is not c.c or not extras_ok(calls1[0]):
-                    orc = "infeasible individual: evaluation function must be called exactly once, on the closest valid point, with the extras; calls=%s" % call_tok
+                    orc = "infeasible individual: the wrapper's own evaluation function must be called exactly once, on the closest valid point, with this call's extras (whatever fitness is stored on the objects); calls=%s" % call_tok
                 elif exc is not None or len(res) != n:
                     orc = "infeasible individual: expected %d penalised objectives, got %r %r" % (n, res, exc)
                 else:
@@ -308,6 +359,8 @@ def evaluate(d):
                         orc = "objective %d improved (%s -> %s) when the distance grew" % (i, res[i], res2[i])
                         break
             c.round = 0
+        if c.store and exc is None and res is not None and len(res) == n and all(w != 0 for w in ws):
+            x.fitness.values = tuple(res)
         if orc is None and feas_calls and any(o is not x for o in feas_calls):
             orc = "feasibility function received something else than the individual"
         del feas_calls[:]
@@ -323,8 +376,10 @@ def evaluate(d):
         tag = tags[0]
     else:
         pats = set("".join("+" if w > 0 else "-" if w < 0 else "0" for w in c.ws) for c in cs)
-        tag = "seq/%s/calls=%d/infeasible=%d/sign-patterns=%d/lengths=%d" % (
-            k, len(cs), sum(1 for c in cs if not c.feas), len(pats), len(set(c.n for c in cs)))
+        tag = "seq/%s/calls=%d/infeasible=%d/sign-patterns=%d/lengths=%d/funcs=%d%s%s" % (
+            k, len(cs), sum(1 for c in cs if not c.feas), len(pats), len(set(c.n for c in cs)), nf,
+            "/stored-fitness" if any(c.xfit or c.store or c.cmode in ("clone", "cstale") for c in cs) else "",
+            "/re-evaluation" if any(c.d.get("reuse") is not None for c in cs) else "")
     return Case(d, lines, expects, first_orc, tag=tag, nontrivial=any_nontrivial)
 
 
@@ -401,29 +456,88 @@ def make(rng, k, signs, feas, dkind, distkind, big=False, missize=False):
 
 
 def make_seq(rng):
-    """2-4 calls through ONE decorator instance: individuals of different fitness classes (sign pattern,
-    magnitudes, number of objectives), feasible and infeasible mixed, different extras per call."""
+    """2-5 calls through ONE decorator object that decorates 1-3 different functions: individuals of different
+    fitness classes (sign pattern, magnitudes, number of objectives), feasible and infeasible mixed, different
+    extras per call, wrappers called in any order; individuals that already carry a (stale) fitness, closest
+    points made as repaired clones carrying a fitness, and re-evaluation of the same individual with other
+    extras after its result was stored."""
     k = rng.choice(["delta", "closest"])
-    ncalls = rng.randint(2, 4)
+    ncalls = rng.randint(2, 5)
     same_len = rng.random() < 0.6
     n0 = rng.randint(1, 4)
     has_dist = rng.random() < 0.7
     dkind = rng.choice(["scalar", "vector"]) if same_len else "scalar"
-    calls, base = [], None
+    nfuncs = rng.choice([1, 1, 2, 2, 3])
+    calls, base, signs_of = [], None, []
     for j in range(ncalls):
-        n = n0 if same_len else rng.randint(1, 4)
-        signs = [rng.choice([1, 1, -1, -1, 0]) for _ in range(n)]
-        feas = rng.random() < 0.25
+        reuse = rng.randrange(j) if (j and rng.random() < 0.35) else None
+        if reuse is not None:
+            signs = signs_of[reuse]
+        else:
+            n = n0 if same_len else rng.randint(1, 4)
+            signs = [rng.choice([1, 1, -1, -1, 0]) for _ in range(n)]
+        signs_of.append(signs)
+        n = len(signs)
+        feas = rng.random() < 0.3
         distkind = rng.choice(["scalar", "vector"]) if has_dist else "absent"
         c = make(rng, k, signs, feas, dkind, distkind)
         if base is None:
             base = c
-        calls.append(dict((key, v) for key, v in c.items() if key not in ("k", "delta", "alpha", "alias")))
+        c = dict((key, v) for key, v in c.items() if key not in ("k", "delta", "alpha", "alias"))
+        if reuse is not None:
+            src = calls[reuse]
+            c["reuse"] = reuse
+            for key in ("w", "f0", "fc", "cid", "ints"):
+                if key in src:
+                    c[key] = src[key]
+                else:
+                    c.pop(key, None)
+        if nfuncs > 1:
+            c["fi"] = rng.randrange(nfuncs)
+        if rng.random() < 0.4:
+            c["xfit"] = [rand_dyadic(rng) for _ in range(n)]
+        if rng.random() < 0.5:
+            c["store"] = True
+        if k == "closest" and c.get("cid", 1) != 0:
+            c["cmode"] = rng.choice(["plain", "clone", "clone", "cstale", "fresh"])
+            if c["cmode"] == "cstale":
+                c["cfit"] = [rand_dyadic(rng) for _ in range(n)]
+        calls.append(c)
     d = {"k": "seq", "deco": k, "has_dist": has_dist, "calls": calls}
+    if nfuncs > 1:
+        d["nfuncs"] = nfuncs
+        d["foff"] = [sfr(Fr(v)) for v in rng.sample([0, 1, -3, 16, Fr(5, 2), Fr(-7, 4), 100], nfuncs)]
     for key in ("delta", "alpha", "alias", "ints", "lists"):
         if key in base:
             d[key] = base[key]
     return d
+
+
+def make_orders(rng):
+    """one decorator object decorates 2-3 functions (toolbox.decorate twice with the same object); the wrappers
+    are then called in every order, on a feasible and on an infeasible individual"""
+    k = rng.choice(["delta", "closest"])
+    nfuncs = rng.choice([2, 3])
+    n = rng.randint(1, 3)
+    signs = [rng.choice([1, -1, -1, 0]) for _ in range(n)]
+    proto_f = make(rng, k, signs, True, "scalar", "scalar")
+    proto_i = make(rng, k, signs, False, "scalar", "scalar")
+    strip = lambda c: dict((key, v) for key, v in c.items() if key not in ("k", "delta", "alpha", "alias"))
+    out = []
+    for order in itertools.permutations(range(nfuncs)):
+        calls = []
+        for fi in order:
+            for proto in (proto_f, proto_i):
+                c = strip(proto)
+                c["fi"] = fi
+                calls.append(c)
+        d = {"k": "seq", "deco": k, "has_dist": True, "calls": calls, "nfuncs": nfuncs,
+             "foff": [sfr(Fr(v)) for v in rng.sample([0, 1, -3, 16, Fr(5, 2), 100], nfuncs)]}
+        for key in ("delta", "alpha"):
+            if key in proto_f:
+                d[key] = proto_f[key]
+        out.append(d)
+    return out
 
 
 def generate(tier, rng, mult):
@@ -442,6 +556,9 @@ def generate(tier, rng, mult):
                 yield make(rng, "closest", signs, True, None, rng.choice(["absent", "scalar", "vector"]))
     for _ in range((30000 if thorough else 3000) * mult):
         yield make_seq(rng)
+    for _ in range((2000 if thorough else 200) * mult):
+        for d in make_orders(rng):
+            yield d
     nrand = (60000 if thorough else 4000) * mult
     for _ in range(nrand):
         n = rng.choice([1, 1, 2, 2, 3, 3, 4, 4, 5, 6])
